@@ -172,6 +172,25 @@ pub fn run(seed: u64, thorough: bool, out_dir: &std::path::Path, scratch: &std::
                     if snap.tip_hash() != tip.hash() || node.shared.store().get_tip_header().map(|t| t.hash()) != Some(tip.hash()) {
                         viol.push(json!({"what": "tip header record is not the last block of the main chain", "detail": {"history": h.jops}}));
                     }
+                    // current-epoch record and per-block epoch records
+                    {
+                        let st = node.shared.store();
+                        let want = st.get_block_epoch_index(&tip.hash()).and_then(|i| st.get_epoch_ext(&i));
+                        let cur = st.get_current_epoch_ext();
+                        if cur.is_none() || cur != want {
+                            viol.push(json!({"what": format!("after a {}: the stored current-epoch record is not the epoch of the main chain's tip", c.what), "detail": {"history": h.jops, "stored_epoch_start": cur.as_ref().map(|e| e.start_number()), "tip_epoch_start": want.as_ref().map(|e| e.start_number()), "stored_last_hash_prev_epoch_is_tip_chain": cur.as_ref().map(|e| e.last_block_hash_in_previous_epoch()) == want.as_ref().map(|e| e.last_block_hash_in_previous_epoch())}}));
+                        }
+                        if Some(snap.epoch_ext().clone()) != want {
+                            viol.push(json!({"what": format!("after a {}: the snapshot's epoch is not the epoch of the main chain's tip", c.what), "detail": {"history": h.jops}}));
+                        }
+                        for b in &main {
+                            let e = st.get_block_epoch_index(&b.hash()).and_then(|i| st.get_epoch_ext(&i));
+                            match e {
+                                Some(e) if e.number() == b.epoch().number() && e.start_number() <= b.number() && b.number() < e.start_number() + e.length() => {}
+                                _ => { viol.push(json!({"what": "a main-chain block's epoch record does not cover the block", "detail": {"history": h.jops, "block": h.block_id[&b.hash()]}})); break; }
+                            }
+                        }
+                    }
                     let mut td = ckb_types::U256::zero();
                     for b in &main {
                         td = td + b.header().difficulty();
